@@ -54,7 +54,9 @@ type Node struct {
 	Kids map[string]*Node
 }
 
-func NewDir() *Node { return &Node{Type: tar.TypeDir, Mode: 0o755, AttrUnknown: true, Kids: map[string]*Node{}} }
+func NewDir() *Node {
+	return &Node{Type: tar.TypeDir, Mode: 0o755, AttrUnknown: true, Kids: map[string]*Node{}}
+}
 
 func (n *Node) IsDir() bool { return n != nil && n.Type == tar.TypeDir }
 
